@@ -484,13 +484,13 @@ func (m Mesh) ScanPrimitivesParallelWithPoolSize(size int, f func(i int, p Primi
 			defer wg.Done()
 			switch m.topology {
 			case TriangleTopology:
-				m.scanTrisPrimitives(start, size, f)
+				m.scanTrisPrimitives(start, start+size, f)
 
 			case PointTopology:
-				m.scanPointPrimitives(start, size, f)
+				m.scanPointPrimitives(start, start+size, f)
 
 			case LineStripTopology:
-				m.scanLinePrimitives(start, size, f)
+				m.scanLinePrimitives(start, start+size, f)
 
 			default:
 				panic(fmt.Errorf("unimplemented topology: %s", m.topology.String()))
